@@ -1,6 +1,6 @@
 ---------------------------- MODULE GtBankProps ----------------------------
 (* C37 monitors.  Events:
-   claim   [gt, ok, pre : [bal, rem], post : [bal, rem], paid : Seq, init : [bal, rem], dep : Seq]
+   claim   [gt, ok, errclass, alldone, pre : [bal, rem], post : [bal, rem], paid : Seq, init : [bal, rem]]
            one complete_gt_exchange; paid = amounts of the token transfers the program issued,
            init = bank right after confirmation, dep = tokens deposited into the bank since then
    deposit [t, amount, pre, post, ...]
@@ -29,6 +29,16 @@ MonLastDrains(e) ==
 (* a failed claim pays nothing and changes nothing *)
 MonFailedClaim(e) ==
   IsClaim(e) /\ ~e.ok => e.post = e.pre /\ \A t \in Tokens(e) : e.paid[t] = 0
+
+(* a well-formed claim (GT amount within the remaining confirmed GT; the specification's Claim succeeds)
+   must not be rejected by the bank's own bookkeeping (errclass = "bank": NotEnoughTokenAmount /
+   TokenAmountOverflow of record_transferred_out / record_claimed); failures of unrelated account checks
+   (errclass = "other") are not judged *)
+MonClaimSucceeds(e) ==
+  IsClaim(e) /\ e.gt <= e.pre.rem /\ Claim(e.pre, e.gt).ok => e.ok \/ e.errclass # "bank"
+(* when every claimant of the history has claimed (alldone; histories without later deposits) the bank is empty *)
+MonDrainedAtEnd(e) ==
+  IsClaim(e) /\ e.alldone /\ e.init.rem > 0 => e.post.rem = 0 /\ \A t \in Tokens(e) : e.post.bal[t] = 0
 
 IsFactor(e) == e.op \in {"set_gt_factor", "set_buyback_factor"}
 (* stored factors never exceed 100% *)
